@@ -478,6 +478,27 @@ func Event(kind string, args ...interface{}) {
 	}
 }
 
+// Note appends a marker like Event, but as a thread-local event: its position in the log relative to
+// other threads' markers is not part of the state (use it when the oracle only reads per-thread order
+// and counts; call/return markers whose real-time order matters must use Event).
+func Note(kind string, args ...interface{}) {
+	x := X
+	if x == nil || x.aborting {
+		return
+	}
+	name := "?"
+	if x.cur != nil {
+		name = x.cur.Name
+	}
+	x.events = append(x.events, Ev{Thread: name, Kind: kind, Args: args, Step: x.steps})
+	if x.cur != nil && !x.frozen {
+		x.hbEvent(nil, kLog, strHash(kind))
+	}
+	if x.tracing {
+		x.tracef("NOTE %s %v", kind, args)
+	}
+}
+
 // ThreadName returns the running model thread's name (goroutine identity for oracles).
 func ThreadName() string {
 	x := X
